@@ -32,6 +32,7 @@ type Cfg struct {
 	ReaderBoost    int // multiplier of reader begin/close weights
 	ReopenWeight   int // default 6
 	Faults         int // weight of arming an I/O fault (0 = never)
+	FaultKinds     string // kinds of calls an armed fault may hit ("" = all; see drv.OpArmFault)
 	TearMeta       int // weight of tearing the older meta slot between sessions (0 = never)
 }
 
@@ -229,7 +230,7 @@ func Next(t *rapid.T, e *drv.Env, cfg Cfg) drv.Op {
 		k := pick(t, "txop", ws)
 		switch k {
 		case drv.OpArmFault:
-			return drv.Op{Op: k, U: uint64(rapid.IntRange(1, 12).Draw(t, "faultin"))}
+			return drv.Op{Op: k, U: uint64(rapid.IntRange(1, 12).Draw(t, "faultin")), Note: cfg.FaultKinds}
 		case drv.OpTearMeta:
 			return drv.Op{Op: k, U: uint64(rapid.IntRange(57, 71).Draw(t, "tearbytes"))}
 		case drv.OpBeginRO:
